@@ -24,7 +24,8 @@ STEPS = [
     {"op": "list", "path": "/d", "n": 3, "seed": "c12c", "split": "random"},
     {"op": "pull", "path": "/f", "size": 5000, "seed": "c12d", "rec": "random", "split": "blocks", "dest": "bytesio", "cb": None},
     {"op": "push", "path": "/p", "size": 6000, "seed": "c12e", "src": "bytesio", "mode": 0o100644, "mtime": 11, "cb": None},
-    {"op": "pull", "path": "/g", "size": 300, "seed": "c12f", "rec": "one", "split": "whole", "dest": "bytesio", "cb": "ok"},
+    # (the file has grown since the device answered the size query: STAT says 100 bytes, RECV delivers 300)
+    {"op": "pull", "path": "/g", "size": 300, "seed": "c12f", "rec": "one", "split": "random", "dest": "bytesio", "cb": "ok", "stat_size": 100},
     {"op": "streaming_shell", "cmd": "b", "decode": False, "cls": "ascii", "seed": "c12g", "take": 1},
     {"op": "exec_out", "cmd": "c", "decode": False, "cls": "random", "seed": "c12h", "take": None},
 ]
@@ -131,6 +132,9 @@ def run_case(case):
                 if persistent and case.get("quick") and kind in ("oserror", "eof") and k % 2:
                     continue      # quick tier: persistent oserror/eof only at every second index
                 plans.append(((k,), kind, persistent))
+        if k % 7 == 3:
+            # end of stream on a link that answers at once: thousands of empty reads before the operation gives up
+            plans.append(((k,), "eof-fast", True))
         if k % 3 == 0:
             # afterwards the transport's close() keeps failing for a while (close() and the first re-connect attempt meet it), then everything is healthy again
             plans.append(((k,), "timeout", "closebroken"))
@@ -154,6 +158,8 @@ def run_case(case):
                     return None
                 if not injected:
                     injected.append(idx)
+                if kind == "eof-fast":
+                    return transports.Fault("eof", read_dt=0.004)
                 return transports.Fault(kind)
             if idx in kk:
                 injected.append(idx)
